@@ -54,6 +54,7 @@ CONSTANTS Platforms,   \* subset of {"default", "plat"}: the platform the instan
                        \* stored to and reloaded from conf/experiment.instance.conf + conf/stages.d/stageN.instance.conf)
           Stales,      \* subset of BOOLEAN: does conf/ of the package already carry a flowir_instance.yaml (of an old, different instance)
           ReparamTo,   \* subset of {"default", "plat"}: platforms an existing instance may be re-parametrised for (action Reparam)
+          PeekOn,      \* BOOLEAN: is the platform-less read (action Peek) explored
           Empties,     \* subset of {"absent", "empty"}: does a component set options explicitly to empty / zero / false (see Explicit)
           Blueprints,  \* subset of {"g", "gs", "sP", "all"}: which blueprint layers define the same option (see Defines)
           MaxIter,     \* loop iterations beyond iteration 0 (kept below 10: see C05)
@@ -83,6 +84,8 @@ Norm(d) == [d EXCEPT !.loaded = FALSE]
 ---------------------------------------------------------------------------
 (* What a description means: the observable, resolved facts (layering as documented: default < platform < user;  *)
 (* stage variables over global ones; component variables over both).                                             *)
+OvVal(d)   == IF d.plat = "plat" THEN "O-ov" ELSE "c-ov"                \* component variable that override.plat.variables redefines
+OnlyO(d)   == IF d.plat = "plat" THEN "only" ELSE ""                    \* variable that only override.plat.variables defines ("": not defined)
 UvVal(d)   == IF d.uv = "none" THEN "d-uv" ELSE "U-uv"                  \* global variable, user files override it
 PvVal(d)   == IF d.plat = "plat" THEN "P-pv" ELSE "d-pv"                \* global variable, the platform overrides it
 SvVal(d)   == IF d.uv = "stage" THEN "U-sv"                             \* stage 0 variable: user stage > platform stage > default stage
@@ -135,7 +138,7 @@ DExplicit(p) == IF p.ex = "empty"
                 THEN [retries |-> 0, maxr |-> 0, rpath |-> FALSE, es |-> "", zero |-> "0"]
                 ELSE [retries |-> 3, maxr |-> Unset, rpath |-> TRUE, es |-> "text", zero |-> "5"]
 
-View(p, d) == [live |-> d.live, plat |-> d.plat, uv |-> UvVal(d), pv |-> PvVal(d), sv |-> SvVal(d),
+View(p, d) == [live |-> d.live, plat |-> d.plat, ov |-> OvVal(d), onlyo |-> OnlyO(d), uv |-> UvVal(d), pv |-> PvVal(d), sv |-> SvVal(d),
                nrep |-> Replicas(p, d), wall |-> Walltime(d), ovr |-> Override(d), pp |-> PpVal(d), iters |-> d.iters,
                threads |-> Threads(p, d), threads2 |-> Threads2(p, d), chunk |-> Chunk(p, d), lzp |-> LzPrefix(p, d),
                opt |-> Explicit(p), dopt |-> DExplicit(p)]
@@ -173,6 +176,15 @@ Load(update) == /\ disk.live
                 /\ hist' = Append(hist, [a |-> "Load", flag |-> update])
                 /\ UNCHANGED pk
 
+(* The instance directory is read WITHOUT naming the platform again (Experiment.experimentFromInstance(dir), read-only: *)
+(* what etest / ememo / ewrap do).  The description is self-contained under its single `default` platform, so the      *)
+(* reader must see every fact of View(disk) -- everything but the platform's name -- although it does not re-apply      *)
+(* the platform's layers (override.<platform>, platform variables, platform blueprints): they must have been folded in. *)
+(* It is a read: neither the live objects nor the directory change.                                                     *)
+Peek == /\ disk.live /\ PeekOn
+        /\ hist' = Append(hist, [a |-> "Peek", flag |-> FALSE])
+        /\ UNCHANGED <<pk, mem, disk>>
+
 (* The instance directory is loaded again as a *package* for another platform with updateInstanceConfiguration=True *)
 (* (what `elaunch --restart` does when the platform changed): Experiment(dir, platform=q, is_instance=False,          *)
 (* updateInstanceConfiguration=True).  The experiment is rebuilt from the package description kept in the directory   *)
@@ -188,6 +200,7 @@ Next == \/ Create \/ Patch \/ Store
         \/ \E q \in AllPlatforms : Reparam(q)
         \/ \E s \in BOOLEAN : Iterate(s)
         \/ \E u \in BOOLEAN : Load(u)
+        \/ Peek
 Spec == Init /\ [][Next]_vars
 
 Bounded == Len(hist) < MaxLen          \* CONSTRAINT: histories of at most MaxLen actions
@@ -218,6 +231,7 @@ TypeOK == /\ pk \in Packages
 (* what is stored is never ahead of the live objects: it was written by them (Store, Iterate(store)) or they were  *)
 (* rebuilt from it (Load); a Store captures everything instantiated / patched so far                               *)
 DiskNeverAhead == disk.live => (mem.live /\ disk.iters <= mem.iters /\ disk.patch <= mem.patch)
+PeekIsARead == [][Peek => UNCHANGED <<mem, disk>>]_vars
 StoreCapturesAll == [][Store => disk' = Norm(mem)]_vars
 (* "the same experiment" also for what happens next: no observable fact depends on whether the live objects were   *)
 (* reloaded, and a further loop iteration of a reloaded experiment is the iteration the original would have made    *)
